@@ -25,7 +25,7 @@ from . import fld
 
 MAXNUM, MAXDEN = 2_000_000, 64
 GEO = ("translate", "scale", "rotate90")
-INPLACE_STATE = ("setvalid", "mutatevalid", "updateconst", "setarray")
+INPLACE_STATE = ("setvalid", "mutatevalid", "updateconst", "setarray", "fromfield", "setsub")
 PERSIST = {"h5": "h5", "ovf": "ovf", "vtk": "vtk"}
 
 
@@ -307,6 +307,29 @@ class World:
             return f * self.vars[c["y"]]
         if op == "mulnum":
             return f * int(a["c"])
+        if op == "sub":
+            return f - self.vars[c["y"]]
+        if op == "dot":
+            return f.dot(self.vars[c["y"]])
+        if op == "cross":
+            return f.cross(self.vars[c["y"]])
+        if op == "norm":
+            return f.norm
+        if op == "orientation":
+            return f.orientation
+        if op == "integrate":
+            return f.integrate(dims[a["d"] - 1])
+        if op == "fromfield":
+            f.update_field_values(self.vars[c["y"]])
+            return f
+        if op == "setsub":
+            m = f.mesh
+            pmin_, cell_ = m.region.pmin, m.cell
+            off = 0.5 if a["sh"] else 0.0
+            p1 = [float(pmin_[d] + (a["a"][d] + off) * cell_[d]) for d in range(len(dims))]
+            p2 = [float(pmin_[d] + (a["b"][d] + 1 + off) * cell_[d]) for d in range(len(dims))]
+            m.subregions = {"t": df.Region(p1=p1, p2=p2, dims=list(dims), units=list(m.region.units))}
+            return f
         if op == "comp":
             return getattr(f, f.vdims[a["c"] - 1])
         if op == "lshift":
